@@ -97,11 +97,11 @@ class Ctx:
                 s.update(extra)
             self.samples.append(s)
 
-    def run_stream(self, cases, units=None, oracle=None, mode="trace", plain=False, panics_are_failures=False, per_case_timeout=0.5):
+    def run_stream(self, cases, units=None, oracle=None, mode="trace", plain=False, panics_are_failures=False, per_case_timeout=0.5, case_limit_ms=20000, slow_ms=None):
         """runs cases through the implementation (and, in trace mode, the model); applies the oracle"""
         if not cases:
             return {}
-        results, files, wd = runner.run_cases(cases, mode=mode, plain=plain, per_case_timeout=per_case_timeout)
+        results, files, wd = runner.run_cases(cases, mode=mode, plain=plain, per_case_timeout=per_case_timeout, case_limit_ms=case_limit_ms)
         self.workdirs.append(wd)
         for c in cases:
             self.note_case(c)
@@ -128,6 +128,10 @@ class Ctx:
                 if what.startswith("DRIFT"):
                     self.corr_diffs.append((cid, "replica", "replica pipeline output differs from make_formatter"))
         for r in results.values():
+            if slow_ms is not None and r.ms is not None and r.failure is None:
+                self.max_ms = max(getattr(self, "max_ms", 0), r.ms)
+                if r.ms > slow_ms + len(r.case.input_bytes()) // 50:
+                    self.fail("hang", r.case, "took %d ms for %d bytes (limit %d ms + 1 ms per 50 bytes)" % (r.ms, len(r.case.input_bytes()), slow_ms), site="slow")
             if r.failure is not None:
                 self.no_output += 1
                 if panics_are_failures:
@@ -212,6 +216,8 @@ def standard_streams(ctx, n_seed_cfgs=1, n_mut=200, n_soup=300, n_bytes=100, n_g
             t2 = gen.relayout(t, rng)
             t = t2 if t2 is not None else t
         cases.append(ctx.case("grammar", t, gen.random_cfg(rng)))
+    for _ in range(n_gram * 2):
+        cases.append(ctx.case("literal", rng.choice(CONTEXTS) % gen_literal(rng), gen.random_cfg(rng)))
     return cases
 
 
@@ -279,8 +285,15 @@ TOGGLE_FORMS = [("// pasfmt off\n", "// pasfmt on\n"), ("{pasfmt off}", "{pasfmt
 NON_TOGGLES = ["// pasfmt offx\n", "// pasfmtoff\n", "{ pasfmt }", "{pasfmt o}", "(* pas fmt off *)", "/// pasfmt off\n", "// xpasfmt off\n", "{$pasfmt off}", "{pasfmt offf}", "{pasfmt on1}"]
 
 
+OFF_FORMS = ["// pasfmt off\n", "{pasfmt off}", "(* pasfmt off *)", "//PASFMT OFF\n", "{ \tPASFMT off now }", "(*pasfmt Off*)", "// pasfmt off\r\n", "// pasfmt off\r", "//pasfmt\toff\n",
+             "{ pasfmt off: aligned by hand }"]
+ON_FORMS = ["// pasfmt on\n", "{pasfmt on}", "(* pasfmt on *)", "//  PasFmt   On\n", "{pasfmt ON}", "//pasfmt on\n", "// pasfmt on\r\n", "{\tpasfmt\x0con}"]
+
+
 def insert_region(text, rng):
-    """returns (new_text, region_bytes) or None"""
+    """inserts a random sequence of 1..4 toggle comments (off/on in any order, so also a second `off`
+    inside a disabled region and an `on` without `off`) at token gaps; returns (new_text, [regions])
+    where each region is the exact byte string that must appear in the output"""
     if gen.has_asm_or_toggle(text) or "'''" in text:
         # multi-line literals: the approximate tokenizer could place the comment inside a string
         return None
@@ -289,24 +302,40 @@ def insert_region(text, rng):
             and not gen.is_comment_kind(toks[i - 1][0]) and toks[i - 1][0] not in ("unk",) and toks[i + 1][0] not in ("unk",)]
     if not gaps:
         return None
-    a = rng.choice(gaps)
-    later = [g for g in gaps if g > a]
-    off, on = rng.choice(TOGGLE_FORMS)
-    pre = "".join(t for _, t in toks[:a + 1])
-    if later and rng.random() < 0.8:
-        b = rng.choice(later)
-        mid = "".join(t for _, t in toks[a + 1:b + 1])
-        post = "".join(t for _, t in toks[b + 1:])
-        region = off + mid + on
-        new = pre + region + post
-        # the region ends with the `on` comment's content (without its line terminator)
-        region_core = off + mid + on.rstrip("\r\n")
-    else:
-        mid = "".join(t for _, t in toks[a + 1:])
-        region = off + mid
-        new = pre + region
-        region_core = region
-    return new, region_core.encode("utf-8")
+    n = min(len(gaps), rng.choice([1, 2, 2, 2, 3, 4]))
+    chosen = sorted(rng.sample(gaps, n))
+    kinds = []
+    for j in range(n):
+        if j == 0:
+            kinds.append("off" if rng.random() < 0.85 else "on")
+        else:
+            kinds.append(rng.choice(["off", "on", "on"]))
+    pieces = []   # (text, toggle kind or None)
+    prev = 0
+    for g, kd in zip(chosen, kinds):
+        pieces.append(("".join(t for _, t in toks[prev:g + 1]), None))
+        pieces.append((rng.choice(OFF_FORMS if kd == "off" else ON_FORMS), kd))
+        prev = g + 1
+    pieces.append(("".join(t for _, t in toks[prev:]), None))
+    new = "".join(p for p, _ in pieces)
+    regions = []
+    ignored = False
+    start = None
+    pos = 0
+    for ptxt, kd in pieces:
+        if kd == "off" and not ignored:
+            ignored = True
+            start = pos
+        elif kd == "on" and ignored:
+            end = pos + len(ptxt.rstrip("\r\n"))
+            regions.append(new[start:end].encode("utf-8"))
+            ignored = False
+        pos += len(ptxt)
+    if ignored:
+        regions.append(new[start:].encode("utf-8"))
+    if not regions:
+        return None
+    return new, regions
 
 
 ASM_BODIES = ["  mov eax, 1\n   @@loop:  dec   ecx\n  jnz @@loop\n", "mov   A,B\n mov C , D\n  mov   C ,   D\n", "  db $0F,$31 ; rdtsc\n  PUSH  EBX\n"]
@@ -321,13 +350,13 @@ def run_c07(ctx):
             r = insert_region(text, rng)
             if r is None:
                 continue
-            new, region = r
-            cases.append(ctx.case("region", new, gen.random_cfg(rng), meta={"region": region}))
+            new, regions = r
+            cases.append(ctx.case("region", new, gen.random_cfg(rng), meta={"regions": regions}))
     # asm bodies
     for _ in range(ctx.n(60, 600)):
         body = rng.choice(ASM_BODIES)
         t = "procedure P;\nbegin\n  X  :=  1;\n  asm\n" + body + "  end;\n  Y:=2;\nend;\n"
-        cases.append(ctx.case("asm", t, gen.random_cfg(rng), meta={"region": body.rstrip("\n").encode()}))
+        cases.append(ctx.case("asm", t, gen.random_cfg(rng), meta={"regions": [body.rstrip("\n").encode()]}))
     # negative spellings: must NOT open a region (the code after it is still formatted)
     for nt in NON_TOGGLES:
         for _ in range(ctx.n(3, 30)):
@@ -336,10 +365,11 @@ def run_c07(ctx):
 
     def oracle(r):
         m = r.case.meta
-        if "region" in m:
+        for region in m.get("regions", []):
             ctx.count("region_checked")
-            if m["region"] not in r.out:
-                ctx.fail("region_not_verbatim", r.case, "verbatim region %r not found byte-for-byte in the output" % m["region"][:200], observed=r.out.hex()[:2000])
+            if region not in r.out:
+                ctx.fail("region_not_verbatim", r.case, "verbatim region %r not found byte-for-byte in the output" % region[:200], observed=r.out.hex()[:2000])
+                break
         if "formatted" in m:
             ctx.count("nontoggle_checked")
             if m["formatted"] not in r.out:
@@ -519,7 +549,7 @@ PROPS["C07"] = Spec(
     coq_targets=["theories/Properties/C07.v"], module="Properties.C07",
     theorems=["C07_ignored_run_verbatim", "C07_region", "C07_split", "C07_ignored_untouched_by_stages"],
     run=run_c07,
-    rule="well-formed seeds and grammar programs with a pasfmt off/on region inserted at random token gaps (8 spellings incl. CR/CRLF terminated), asm blocks with irregular spacing, 9 near-miss spellings that must not toggle; x random configurations; distinct = distinct (input, cfg)",
+    rule="well-formed seeds and grammar programs with a 1-4 pasfmt toggle comments inserted at random token gaps in any order (10 off and 8 on spellings incl. CR/CRLF terminated; a second off inside a region, on without off, unterminated regions), asm blocks with irregular spacing, 9 near-miss spellings that must not toggle; x random configurations; distinct = distinct (input, cfg)",
     explanation="Theorems: a run of ignored tokens is emitted verbatim for all counters/settings unless the safety net fires inside it; no formatting stage touches an ignored token. The toggle/asm marking model is diffed against the implementation's ignore marks on every case; the oracle checks the region's bytes in the real output.",
     assumptions=["which logical lines are AsmInstruction lines is decided by the parser grammar (oracle)"],
 )
@@ -630,8 +660,12 @@ def gen_literal(rng):
             lines.append(ind[:rng.randrange(0, len(ind) + 1)])
         elif c < 0.8:
             lines.append(ind + body + rng.choice(["  ", "\t", " 　"]))
-        elif c < 0.9:
+        elif c < 0.86:
             lines.append(ind + "   " + body)
+        elif c < 0.90:
+            lines.append(ind + rng.choice(["   ", "\t", " \t "]))            # whitespace only, beyond the indentation: part of the value
+        elif c < 0.94:
+            lines.append(ind + rng.choice(["\u00a0", "\u2003\u2003", "\u0085", "\u2028", "\u3000", " \u00a0 "]) + rng.choice(["", "x"]))  # exotic spaces are not blanks
         else:
             lines.append(body)  # under-indented: ineligible unless ind is empty
     text = quotes + term() + "".join(l + term() for l in lines) + ind + quotes
@@ -754,7 +788,24 @@ def run_c04(ctx):
     for d in (50, 200, 1000):
         for opener, closer in (("(", ")"), ("begin ", "end; "), ("[", "]"), ("if a then ", "")):
             cases.append(ctx.case("nest", "x := " * (opener == "(") + opener * d + "1" + closer * d + ";", gen.DEFAULT_CFG, meta={"depth": d}))
-    ctx.run_stream(cases, units=["passes", "cursor"], panics_are_failures=True, per_case_timeout=1.0)
+    # nested control flow whose controlling lines do not fit: the wrapper's child-line search must stay polynomial
+    for depth in ctx.n([8, 14, 20, 26], [8, 12, 16, 20, 24, 28, 32]):
+        for longcond in (True, False):
+            cond = ("A" * 125) if longcond else "C"
+            t = ""
+            for d in range(depth):
+                t += "  " * d + "if %s%d then begin\n" % (cond, d)
+            t += "  " * depth + "X := 1;\n"
+            for d in reversed(range(depth)):
+                t += "  " * d + "end else begin\n" + "  " * (d + 1) + "Y := %d;\n" % d + "  " * d + "end;\n"
+            for wrap in ((120,) if longcond else (20, 12)):
+                cases.append(ctx.case("nest-ifelse", t, (wrap, 0, 1, 0, 2, 2, 0), meta={"depth": depth}))
+        t = "".join("  " * d + ("while %s%d do begin\n" % ("B" * 60, d)) for d in range(depth)) + "Z;\n" + "".join("  " * d + "end;\n" for d in reversed(range(depth)))
+        cases.append(ctx.case("nest-while", t, (40, 1, 1, 0, 4, 2, 0), meta={"depth": depth}))
+        t = "".join("  " * d + ("case %s%d of\n" % ("K" * 40, d)) + "  " * d + " 1: begin\n" for d in range(depth)) + "Z;\n" + "".join("  " * d + "end;\n" + "  " * d + "end;\n" for d in reversed(range(depth)))
+        cases.append(ctx.case("nest-case", t, (30, 0, 1, 0, 2, 2, 0), meta={"depth": depth}))
+    ctx.run_stream(cases, units=["passes", "cursor"], panics_are_failures=True, per_case_timeout=1.0, case_limit_ms=15000, slow_ms=3000)
+    ctx.oracle_counts["max_case_ms"] = getattr(ctx, "max_ms", 0)
     if not ctx.quick():
         # the plain release profile (no overflow checks): wrap-around instead of panic must not hang or crash either
         ctx.run_stream([ctx.case(c.meta["stream"] + "-plain", c.text, c.cfg, cursors=c.cursors) for c in cases[:: 2]],
@@ -938,6 +989,9 @@ def wellformed_variants(ctx, n_gram, per=2):
 def run_c02(ctx):
     rng = ctx.rng
     cases = []
+    for _ in range(ctx.n(600, 12000)):
+        lit = gen_literal(rng)
+        cases.append(ctx.case("literal", rng.choice(CONTEXTS) % lit, gen.random_cfg(rng)))
     for text, kind, wrap in wellformed_variants(ctx, ctx.n(250, 5000), per=ctx.n(2, 4)):
         cases.append(ctx.case(kind, text, gen.random_cfg(rng, wrap=rng.choice([wrap, 20, 40, 80, 120, 1000000]))))
     ctx.run_stream(cases, units=["spacing", "relex", "lex", "comment", "lower", "recon"])
@@ -955,6 +1009,14 @@ def run_c06(ctx):
                 continue
             cfg = gen.random_cfg(rng, wrap=rng.choice([wrap, 30, 60, 120]))
             pairs.append((ctx.case(kind, text, cfg), ctx.case(kind + "-relayout", t2, cfg), {}))
+        if "{$" in text:
+            # compiler / conditional directives are tokens, not comments: the gaps around them are re-layouted too
+            for _ in range(ctx.n(2, 4)):
+                t2 = gen.relayout(text, rng, directives_as_tokens=True)
+                if t2 is None or t2 == text:
+                    continue
+                cfg = gen.random_cfg(rng, wrap=rng.choice([wrap, 30, 60, 120]))
+                pairs.append((ctx.case(kind + "-dir", text, cfg), ctx.case(kind + "-dir-relayout", t2, cfg), {}))
 
     def compare(ra, rb, meta):
         ctx.count("relayout_pairs")
@@ -968,11 +1030,48 @@ def run_c06(ctx):
     ctx.hypotheses["H-P2 / H-W2: parser and wrapper do not consult the original layout (except the documented reads)"] = "relayout metamorphic pairs on the real formatter; inventory of leading-whitespace reads proved equal to the modelled set"
 
 
+def add_raw_comments(text, rng):
+    """append un-normalised line comments (`//x`, trailing blanks) to some statement lines"""
+    if "'''" in text:
+        return text
+    out = []
+    for ln in text.split("\n"):
+        if ln.rstrip().endswith(";") and rng.random() < 0.3 and "//" not in ln and "{" not in ln:
+            ln = ln + rng.choice([" //x", " //note  ", "//y", " ///doc", " // ok"])
+        out.append(ln)
+    return "\n".join(out)
+
+
+def boundary_width_cases(ctx, texts, stream):
+    """for each text: format once with an unconstrained width, then pick wrap_column values at and
+    next to the lengths of its lines — the widths at which an off-by-one or a late content change shows"""
+    rng = ctx.rng
+    probes = []
+    for t, base in texts:
+        probes.append(ctx.case(stream + "-probe", t, (1000000000,) + tuple(base[1:])))
+    res = ctx.run_stream(probes, mode="fmt")
+    cases = []
+    for c in probes:
+        r = res.get(c.id)
+        if r is None or r.out is None:
+            continue
+        lens = sorted({len(l.rstrip(b"\r")) for l in r.out.split(b"\n") if 12 <= len(l.rstrip(b"\r")) <= 250})
+        if not lens:
+            continue
+        for L in rng.sample(lens, min(len(lens), 2)):
+            for w in rng.sample([L - 2, L - 1, L, L + 1], 2):
+                cases.append(ctx.case(stream, c.text, (max(1, w),) + tuple(c.cfg[1:])))
+    return cases
+
+
 def run_c03(ctx):
     rng = ctx.rng
     first = []
     for text, kind, wrap in wellformed_variants(ctx, ctx.n(200, 4000), per=ctx.n(1, 3)):
         first.append(ctx.case(kind, text, gen.random_cfg(rng, wrap=rng.choice([wrap, 30, 60, 120, 1000000]))))
+    pool = wellformed_texts(ctx, ctx.n(150, 3000))
+    bt = [(add_raw_comments(t, rng), gen.random_cfg(rng)) for t, _, _ in pool[:: ctx.n(3, 1)]]
+    first += boundary_width_cases(ctx, bt, "boundary")
     res1 = ctx.run_stream(first, mode="fmt")
     second = []
     for c in first:
@@ -1022,7 +1121,7 @@ PROPS["C06"] = Spec(
 )
 PROPS["C03"] = Spec(
     coq_targets=["theories/Properties/C03.v"], module="Properties.C03",
-    theorems=["C03_spacing_idempotent", "C03_lowercase_idempotent", "C03_eof_newline_idempotent", "C03_mlstring_idempotent"],
+    theorems=["C03_spacing_idempotent", "C03_lowercase_idempotent", "C03_eof_newline_idempotent", "C03_mlstring_idempotent", "C03_rewriters_before_wrapper"],
     run=run_c03,
     rule="well-formed seeds and grammar programs and their variants x random configurations: format, then format the result again with the same configuration (and a third time in the thorough tier)",
     explanation="Theorems: the spacing rule, keyword lower-casing, EofNewline and multi-line string re-indentation are fixpoints of themselves. Idempotence of the whole formatter additionally needs the wrapper's plan to be a function of the layout-free view, which is decided by the oracle fmt(fmt(x)) = fmt(x) on the real formatter.",
@@ -1076,6 +1175,8 @@ def run_c05(ctx):
         unit = "\t" if tabs else " " * tw
         ctx.count("programs_checked")
         for idx, depth, kind in c.meta["marks"]:
+            if kind == "ctlbegin" and not c.cfg[1]:
+                continue   # begin_style=auto: the begin stays on the controlling line
             pos = find_by_nonblank_index(out, idx)
             if pos < 0:
                 ctx.fail("statement_lost", c, "marked token (non-blank index %d) not found in the output" % idx)
